@@ -127,6 +127,18 @@ func (f *Fact) Heavy(x int64) int64 {
 	return HeavyOf(x)
 }
 
+// Sheavy is a counted pure method DECLARED to return an interface value (it holds a *Sub): its members are read
+// as F.Sheavy(x).V / F.Sheavy(x).S.
+func (f *Fact) Sheavy(x int64) interface{} {
+	h := f.H()
+	h.HeavyCalls++
+	h.Log = append(h.Log, fmt.Sprintf("heavy:%d", x))
+	if h.OnProbe != nil {
+		h.OnProbe("heavy", x, 0)
+	}
+	return &Sub{V: HeavyOf(x), S: "s"}
+}
+
 // Iheavy is a second counted pure method whose call text "F.Iheavy(...)" contains the text of the
 // variable F.I without depending on it.
 func (f *Fact) Iheavy(x int64) int64 {
